@@ -48,6 +48,10 @@ def _grid(tier):
                     if tier == 'quick' and (ol != orr) and perm:
                         continue
                     out.append({'shape': s, 'variant': variant, 'ortho_l': ol, 'ortho_r': orr, 'perm': perm})
+    # complex-valued y with real x (U^T Y V S^-1 is linear in Y: no conjugation of y anywhere)
+    for s in (shapes[2], shapes[3]):
+        for variant in ('exact', 'standard'):
+            out.append({'shape': s, 'variant': variant, 'ortho_l': True, 'ortho_r': True, 'perm': 0, 'cplx_y': True})
     # relative rank cut (threshold > 0): symbolic threshold, the explorer forks over the kept rank; the cut applies to x only
     for s in shapes[:4]:
         for variant in ('exact', 'standard'):
@@ -81,7 +85,7 @@ def _order_policy(ctx, perm_seed, sorted_svd=False):
 
 
 @scenario('C17', 'tdmd', _grid)
-def tdmd(ctx, shape, variant, ortho_l, ortho_r, perm, theta=False):
+def tdmd(ctx, shape, variant, ortho_l, ortho_r, perm, theta=False, cplx_y=False):
     """reduced matrix == U^T Y V S^-1; eigenvalues sorted descending; modes; inputs unchanged"""
     TT, mod = ctx.R.TT, ctx.R.tdmd
     if ctx.mode == 'tv':
@@ -91,7 +95,7 @@ def tdmd(ctx, shape, variant, ortho_l, ortho_r, perm, theta=False):
     sx = {'rows': dims + [m], 'cols': [1] * d, 'ranks': shape['rx']}
     sy = {'rows': dims + [m], 'cols': [1] * d, 'ranks': shape['ry']}
     Xd = D.tt_full(ctx, mk_cores(ctx, 'x', sx, False)).reshape(-1, m)
-    Yd = D.tt_full(ctx, mk_cores(ctx, 'y', sy, False)).reshape(-1, m)
+    Yd = D.tt_full(ctx, mk_cores(ctx, 'y', sy, cplx_y)).reshape(-1, m)
     fn0 = mod.tdmd_exact if variant == 'exact' else mod.tdmd_standard
     th = 0
     if theta:
@@ -99,7 +103,7 @@ def tdmd(ctx, shape, variant, ortho_l, ortho_r, perm, theta=False):
     fn = (lambda x_, y_, **kw: fn0(x_, y_, threshold=th, **kw)) if theta else fn0
     if not ctx.sym:
         x = TT(mk_cores(ctx, 'x', sx, False))
-        y = TT(mk_cores(ctx, 'y', sy, False))
+        y = TT(mk_cores(ctx, 'y', sy, cplx_y))
         # a switched-off flag documents "that side is orthonormal already": hand over an admissible representation of the same tensor
         if not ortho_l and d >= 3:
             x = x.ortho_left(end_index=d - 3)
@@ -147,7 +151,7 @@ def tdmd(ctx, shape, variant, ortho_l, ortho_r, perm, theta=False):
             ex.assume(a)
         pol = lapack.set_policy(_order_policy(ctx, perm, theta))
         x = TT(mk_cores(ctx, 'x', sx, False))
-        y = TT(mk_cores(ctx, 'y', sy, False))
+        y = TT(mk_cores(ctx, 'y', sy, cplx_y))
         ev, modes = fn(x, y, ortho_l=ortho_l, ortho_r=ortho_r)
         log = state.S.stub_log
         eigs = [c for c in log if c.kind == 'eig']
